@@ -4,8 +4,8 @@ Proof: lean/PsycheModel/Props/C11.lean: (a) for all 18 arithmetic kinds, every o
 6.5.5-6.5.9/6.5.16.2, an operation C11 gives a type to is never rejected by the model of the checker's dispatch
 (corollary of the C13 equalities, whose model is tied to the real TypeChecker exhaustively by the C13 run);
 (b) on a transcription of typesAreCompatible, every error-free type of any depth is compatible with itself
-(qualifiers respected); with ignoreQualifier it is not (witness, replayed here on the implementation).
-Oracle sweep (the property itself): ~8,300 single-construct test functions over a prelude of declarations of every
+(qualifiers respected AND qualifiers ignored - the latter since the repair of typesAreCompatible; 'kpp == kpq' of the sweep is its replay on the implementation).
+Oracle sweep (the property itself): ~14,000 test functions (single constructs + every producer of a value class inside every consumer of that class) over a prelude of declarations of every
 arithmetic type, pointers, arrays, structs/unions/enums, typedef chains and prototyped/variadic functions; gcc (the
 property's flags) decides line by line which are valid C; every valid one must draw no Error diagnostic."""
 import collections, concurrent.futures, json, os, re, sys
